@@ -11,23 +11,25 @@ Notation idX := (fun x : XR => x).
 
 (* ---- the real values of the non-null elements ---------------------------------------------------- *)
 Section Canonical.
-  Context {T : Type} {DT : IsNone T XR}.
+  (* A: the element's inner type; tof: its cast into the statistics' carrier (Number::f64) *)
+  Context {A : Type} {T : Type} {DT : IsNone T A}.
+  Variable tof : A -> XR.
 
   (* canonical nulls: a non-null element is a number *)
   Definition canonical (xs : list T) : Prop :=
-    forall v, In v xs -> not_none v = true -> unwrap v <> None.
+    forall v, In v xs -> not_none v = true -> tof (unwrap v) <> None.
   Definition rvals (xs : list T) : list R :=
-    flat_map (fun v => if not_none v then match unwrap v with Some r => [r] | None => [] end else []) xs.
+    flat_map (fun v => if not_none v then match tof (unwrap v) with Some r => [r] | None => [] end else []) xs.
   Definition nvalid (xs : list T) : nat := length (rvals xs).
 
-  Lemma vals_rvals xs : canonical xs -> vals xs = map Some (rvals xs).
+  Lemma vals_rvals xs : canonical xs -> map tof (vals xs) = map Some (rvals xs).
   Proof.
     intros H. induction xs as [|v xs IH]; [reflexivity|].
     rewrite vals_cons. cbn [rvals flat_map]. fold (rvals xs).
-    assert (IH' : vals xs = map Some (rvals xs)).
+    assert (IH' : map tof (vals xs) = map Some (rvals xs)).
     { apply IH. intros w Hw. apply H. right. exact Hw. }
     destruct (not_none v) eqn:E; [|exact IH'].
-    pose proof (H v (or_introl eq_refl) E) as Hv. destruct (unwrap v) as [r|]; [|contradiction].
+    pose proof (H v (or_introl eq_refl) E) as Hv. cbn [map]. destruct (tof (unwrap v)) as [r|]; [|contradiction].
     cbn [app map]. rewrite IH'. reflexivity.
   Qed.
 
@@ -44,19 +46,26 @@ Section Canonical.
   Qed.
 
   Lemma count_valid_nvalid xs : canonical xs -> count_valid xs = nvalid xs.
-  Proof. intros H. rewrite count_valid_spec, (vals_rvals H), map_length. reflexivity. Qed.
+  Proof.
+    intros H. rewrite count_valid_spec. unfold nvalid.
+    rewrite <- (map_length tof), (vals_rvals H), map_length. reflexivity.
+  Qed.
 End Canonical.
 
-(* the float-like dictionary (NaN is the null) is canonical by construction and rvals = Stats.valid *)
-Lemma canonical_float (xs : list XR) : canonical (DT := IsNoneXR) xs.
+(* f64 / f32: the float-like dictionary (NaN is the null) is canonical by construction, rvals = Stats.valid *)
+Lemma canonical_float (xs : list XR) : canonical (DT := IsNoneXR) idX xs.
 Proof. intros v _ Hv. destruct v; [discriminate|discriminate Hv]. Qed.
-Lemma rvals_float (xs : list XR) : rvals (DT := IsNoneXR) xs = valid xs.
+Lemma rvals_float (xs : list XR) : rvals (DT := IsNoneXR) idX xs = valid xs.
 Proof.
   unfold rvals, valid. induction xs as [|v xs IH]; [reflexivity|]. cbn [flat_map]. rewrite IH.
   destruct v; reflexivity.
 Qed.
-(* Option<f64>: T = option XR; canonical = no Some(NaN) *)
+(* Option<f64>: T = option XR; canonical = no Some(NaN) (DESIGN 5.4) *)
 Definition IsNoneOptXR : IsNone (option XR) XR := IsNone_opt None.
+(* i32 / i64 / Option<i32>: inner type Z, cast IZR; every integer series is canonical *)
+Definition zR (z : Z) : XR := Some (IZR z).
+Lemma canonical_int {T} {DT : IsNone T Z} (xs : list T) : canonical zR xs.
+Proof. intros v _ _. discriminate. Qed.
 
 (* ---- folds over a list of numbers ------------------------------------------------------------------ *)
 Lemma sumR_cons x V : sumR (x :: V) = x + sumR V. Proof. reflexivity. Qed.
@@ -97,6 +106,17 @@ Proof.
       with (Some (a + x), Some (b + x * x), Some (c + x * x * x), Some (d + x * x * (x * x))).
     rewrite IH, !psum_cons. f_equal; [f_equal; [f_equal|]|]; f_equal; ring.
 Qed.
+
+(* the accumulating closures see an element only through its cast *)
+Lemma fold_mv_tof {A} (tof : A -> XR) (l : list A) s :
+  fold_left (mv_step tof) l s = fold_left (mv_step idX) (map tof l) s.
+Proof. revert s. induction l as [|x l IH]; intros s; [reflexivity|]. cbn [map fold_left]. apply IH. Qed.
+Lemma fold_sk_tof {A} (tof : A -> XR) (l : list A) s :
+  fold_left (sk_step tof) l s = fold_left (sk_step idX) (map tof l) s.
+Proof. revert s. induction l as [|x l IH]; intros s; [reflexivity|]. cbn [map fold_left]. apply IH. Qed.
+Lemma fold_ku_tof {A} (tof : A -> XR) (l : list A) s :
+  fold_left (ku_step tof) l s = fold_left (ku_step idX) (map tof l) s.
+Proof. revert s. induction l as [|x l IH]; intros s; [reflexivity|]. cbn [map fold_left]. apply IH. Qed.
 
 (* ---- real-number identities behind the closed forms -------------------------------------------------- *)
 Section Identities.
@@ -189,30 +209,23 @@ Qed.
 
 (* ---- closed forms of the single-series statistics ------------------------------------------------------ *)
 Section ClosedForms.
-  Context {T : Type} {DT : IsNone T XR}.
+  Context {A : Type} {NA : Num A} {T : Type} {DT : IsNone T A}.
+  Variable tof : A -> XR.
   Variable xs : list T.
   Variable V : list R.
-  Hypothesis HV : vals xs = map Some V.
+  Hypothesis HV : map tof (vals xs) = map Some V.
   Local Notation n := (length V).
 
   Lemma len_vals : length (vals xs) = n.
-  Proof. rewrite HV, map_length. reflexivity. Qed.
+  Proof. rewrite <- (map_length tof), HV, map_length. reflexivity. Qed.
 
   Lemma INRn_neq0 : n <> 0%nat -> INR n <> 0. Proof. apply not_0_INR. Qed.
 
-  (* vsum *)
-  Lemma vsum_closed : vsum xs = if (n =? 0)%nat then None else Some (Some (sumR V)).
+  (* vmean: the sum is accumulated in the inner type A and cast once *)
+  Hypothesis Hsum : tof (fold_left (fun acc x : A => nadd acc x) (vals xs) nzero) = Some (sumR V).
+  Lemma vmean_closed : vmean tof xs = if (n =? 0)%nat then None else Some (meanR V).
   Proof.
-    unfold vsum. rewrite vfold_n_spec, len_vals, HV. cbn [fst snd].
-    change (@nzero XR NumXR) with (Some 0). rewrite fold_add_some, Rplus_0_l.
-    destruct n; reflexivity.
-  Qed.
-
-  (* vmean *)
-  Lemma vmean_closed : vmean idX xs = if (n =? 0)%nat then None else Some (meanR V).
-  Proof.
-    unfold vmean. rewrite vfold_n_spec, len_vals, HV. cbn [fst snd].
-    change (@nzero XR NumXR) with (Some 0). rewrite fold_add_some, Rplus_0_l.
+    unfold vmean. rewrite vfold_n_spec, len_vals. cbn [fst snd]. rewrite Hsum.
     destruct (n =? 0)%nat eqn:E.
     - apply Nat.eqb_eq in E. rewrite E. reflexivity.
     - apply Nat.eqb_neq in E. replace (1 <=? n)%nat with true by (symmetry; apply Nat.leb_le; lia).
@@ -221,14 +234,14 @@ Section ClosedForms.
 
   (* vmean_var *)
   Lemma vmean_var_closed mp :
-    vmean_var idX mp xs =
+    vmean_var tof mp xs =
     if (n <? mp)%nat then (None, None)
     else if (n =? 0)%nat then (None, None)
     else if (n <? 2)%nat then (Some (meanR V), None)
     else if Rle_dec (popvarR V) EPS then (Some (meanR V), Some 0)
     else (Some (meanR V), Some (samplevarR V)).
   Proof.
-    unfold vmean_var. rewrite vapply_n_spec, len_vals, HV. cbn [fst snd].
+    unfold vmean_var. rewrite vapply_n_spec, len_vals, fold_mv_tof, HV. cbn [fst snd].
     change (@nzero XR NumXR) with (Some 0). rewrite fold_mv, !Rplus_0_l. cbn [fst snd].
     destruct (n <? mp)%nat; [reflexivity|].
     destruct (n =? 0)%nat eqn:E0.
@@ -244,7 +257,7 @@ Section ClosedForms.
   Qed.
 
   Lemma vvar_closed mp :
-    vvar idX mp xs =
+    vvar tof mp xs =
     if (n <? Nat.max mp 2)%nat then None
     else if Rle_dec (popvarR V) EPS then Some 0 else Some (samplevarR V).
   Proof.
@@ -263,7 +276,7 @@ Section ClosedForms.
   Qed.
 
   Lemma vstd_closed mp :
-    vstd idX mp xs =
+    vstd tof mp xs =
     if (n <? Nat.max mp 2)%nat then None
     else if Rle_dec (popvarR V) EPS then Some 0 else Some (samplestdR V).
   Proof.
@@ -276,11 +289,11 @@ Section ClosedForms.
 
   (* vskew *)
   Lemma vskew_closed mp :
-    vskew idX mp xs =
+    vskew tof mp xs =
     if (n <? Nat.max mp 3)%nat then None
     else if Rle_dec (popvarR V) EPS then Some 0 else Some (skewR V).
   Proof.
-    unfold vskew. rewrite vapply_n_spec, len_vals, HV. cbn [fst snd].
+    unfold vskew. rewrite vapply_n_spec, len_vals, fold_sk_tof, HV. cbn [fst snd].
     change (@nzero XR NumXR) with (Some 0). rewrite fold_sk, !Rplus_0_l.
     destruct (n <? mp)%nat eqn:E1.
     { apply Nat.ltb_lt in E1. replace (n <? Nat.max mp 3)%nat with true by (symmetry; apply Nat.ltb_lt; lia).
@@ -316,11 +329,11 @@ Section ClosedForms.
 
   (* vkurt *)
   Lemma vkurt_closed mp :
-    vkurt idX mp xs =
+    vkurt tof mp xs =
     if (n <? Nat.max mp 4)%nat then None
     else if Rle_dec (popvarR V) EPS then Some 0 else Some (kurtR V).
   Proof.
-    unfold vkurt. rewrite vapply_n_spec, len_vals, HV. cbn [fst snd].
+    unfold vkurt. rewrite vapply_n_spec, len_vals, fold_ku_tof, HV. cbn [fst snd].
     change (@nzero XR NumXR) with (Some 0). rewrite fold_ku, !Rplus_0_l.
     destruct (n <? mp)%nat eqn:E1.
     { apply Nat.ltb_lt in E1. replace (n <? Nat.max mp 4)%nat with true by (symmetry; apply Nat.ltb_lt; lia).
@@ -359,17 +372,18 @@ End ClosedForms.
 
 (* ---- two series: pairwise-complete observations ------------------------------------------------------------ *)
 Section TwoSeries.
-  Context {T T2 : Type} {DT : IsNone T XR} {DT2 : IsNone T2 XR}.
+  Context {A : Type} {T T2 : Type} {DT : IsNone T A} {DT2 : IsNone T2 A}.
+  Variable tof : A -> XR.
 
   Definition rp (l : list (T * T2)) : list (R * R) :=
     flat_map (fun p => if not_none (fst p) && not_none (snd p)
-                       then match unwrap (fst p), unwrap (snd p) with Some a, Some b => [(a, b)] | _, _ => [] end
+                       then match tof (unwrap (fst p)), tof (unwrap (snd p)) with Some a, Some b => [(a, b)] | _, _ => [] end
                        else []) l.
   Definition rpairs (xs : list T) (ys : list T2) : list (R * R) := rp (combine xs ys).
 
   Definition canon_pairs (l : list (T * T2)) : Prop :=
-    forall p, In p l -> (not_none (fst p) = true -> unwrap (fst p) <> None) /\ (not_none (snd p) = true -> unwrap (snd p) <> None).
-  Lemma canon_pairs_combine xs ys : canonical xs -> canonical ys -> canon_pairs (combine xs ys).
+    forall p, In p l -> (not_none (fst p) = true -> tof (unwrap (fst p)) <> None) /\ (not_none (snd p) = true -> tof (unwrap (snd p)) <> None).
+  Lemma canon_pairs_combine xs ys : canonical tof xs -> canonical tof ys -> canon_pairs (combine xs ys).
   Proof.
     intros Hx Hy [a b] Hp. split; intros H.
     - apply Hx; [eapply in_combine_l; eassumption|exact H].
@@ -389,7 +403,7 @@ Section TwoSeries.
 
   Lemma fold_corr l n0 a a2 b b2 c :
     canon_pairs l ->
-    fold_left (corr_step idX) l (n0, Some a, Some a2, Some b, Some b2, Some c)
+    fold_left (corr_step tof) l (n0, Some a, Some a2, Some b, Some b2, Some c)
     = ((n0 + length (rp l))%nat, Some (a + psum 1 (xs_of (rp l))), Some (a2 + psum 2 (xs_of (rp l))),
        Some (b + psum 1 (ys_of (rp l))), Some (b2 + psum 2 (ys_of (rp l))), Some (c + prodsum (rp l))).
   Proof.
@@ -401,7 +415,7 @@ Section TwoSeries.
       cbn [fold_left]. unfold corr_step at 2. cbn [fst snd]. cbn [rp flat_map fst snd]. fold (rp l).
       destruct (not_none u) eqn:Eu; [destruct (not_none w) eqn:Ew|]; cbn [andb].
       + specialize (Hu eq_refl). specialize (Hw eq_refl).
-        destruct (unwrap u) as [x|]; [|contradiction]. destruct (unwrap w) as [y|]; [|contradiction].
+        destruct (tof (unwrap u)) as [x|]; [|contradiction]. destruct (tof (unwrap w)) as [y|]; [|contradiction].
         rewrite !xmul_some, !xadd_some, IH by exact Hc'.
         cbn [app length xs_of ys_of map fst snd]. fold (xs_of (rp l)) (ys_of (rp l)).
         rewrite !psum_cons, prodsum_cons.
@@ -412,7 +426,7 @@ Section TwoSeries.
 
   Lemma fold_cov l n0 a b c :
     canon_pairs l ->
-    fold_left (cov_step idX) l (n0, Some a, Some b, Some c)
+    fold_left (cov_step tof) l (n0, Some a, Some b, Some c)
     = ((n0 + length (rp l))%nat, Some (a + psum 1 (xs_of (rp l))), Some (b + psum 1 (ys_of (rp l))),
        Some (c + prodsum (rp l))).
   Proof.
@@ -424,7 +438,7 @@ Section TwoSeries.
       cbn [fold_left]. unfold cov_step at 2. cbn [fst snd]. cbn [rp flat_map fst snd]. fold (rp l).
       destruct (not_none u) eqn:Eu; [destruct (not_none w) eqn:Ew|]; cbn [andb].
       + specialize (Hu eq_refl). specialize (Hw eq_refl).
-        destruct (unwrap u) as [x|]; [|contradiction]. destruct (unwrap w) as [y|]; [|contradiction].
+        destruct (tof (unwrap u)) as [x|]; [|contradiction]. destruct (tof (unwrap w)) as [y|]; [|contradiction].
         rewrite !xmul_some, !xadd_some, IH by exact Hc'.
         cbn [app length xs_of ys_of map fst snd]. fold (xs_of (rp l)) (ys_of (rp l)).
         rewrite !psum_cons, prodsum_cons.
@@ -435,8 +449,8 @@ Section TwoSeries.
 
   Variable xs : list T.
   Variable ys : list T2.
-  Hypothesis Hx : canonical xs.
-  Hypothesis Hy : canonical ys.
+  Hypothesis Hx : canonical tof xs.
+  Hypothesis Hy : canonical tof ys.
   Local Notation P := (rpairs xs ys).
   Local Notation n := (length (rpairs xs ys)).
 
@@ -453,7 +467,7 @@ Section TwoSeries.
   Qed.
 
   Lemma vcov_closed mp :
-    vcov idX mp xs ys = if (n <? Nat.max mp 2)%nat then None else Some (samplecovR P).
+    vcov tof mp xs ys = if (n <? Nat.max mp 2)%nat then None else Some (samplecovR P).
   Proof.
     unfold vcov. change (@nzero XR NumXR) with (Some 0).
     rewrite (fold_cov 0 0 0 0 (canon_pairs_combine Hx Hy)). fold (rpairs xs ys).
@@ -477,7 +491,7 @@ Section TwoSeries.
   Qed.
 
   Lemma vcorr_closed mp :
-    vcorr_pearson idX mp xs ys =
+    vcorr_pearson tof mp xs ys =
     if (n <? Nat.max mp 2)%nat then None
     else if Rlt_dec EPS (popvarR (xs_of P)) then
            (if Rlt_dec EPS (popvarR (ys_of P)) then Some (corrR P) else None)
